@@ -44,6 +44,7 @@ void sim_set_wait_limit(uint64_t max_waits); // exceed -> verif_fail("harness/wa
 enum sim_sys { SYS_READ, SYS_READV, SYS_WRITE, SYS_WRITEV, SYS_SENDFILE, SYS_ACCEPT, SYS_EPOLL_CTL,
   SYS_RECVFROM, SYS_SENDTO, SYS_SEND, SYS_RECV, SYS_SOCKET, SYS_EVENTFD, SYS_PIPE, SYS_CONNECT,
   SYS_SIGACTION, SYS_SIGNALFD, SYS__N };
+#define SIM_NOT_ON_DEL 0x10000   /* or-ed into the errno of a SYS_EPOLL_CTL failure: do not apply it to EPOLL_CTL_DEL */
 enum sim_act { ACT_PASS = 0, ACT_SHORT = 1 /* arg = max bytes */, ACT_FAIL = 2 /* arg = errno */ };
 // Queue an action for the next not-yet-scripted call of `kind` (on `fd`, or any fd when fd<0).
 void sim_script(enum sim_sys kind, int fd, enum sim_act act, long arg);
